@@ -560,9 +560,17 @@ func (p *Packer) validSymlink(root, path, target string) (bool, error) {
 		absTarget = filepath.Join(filepath.Dir(absPath), target)
 	}
 
-	// Target falls within root.
+	// Target falls within root. A relative target must also get there without
+	// climbing above root: a path that leaves root and re-enters it through
+	// root's own name only works where root happens to have that name, so the
+	// link would leave the slug once it is unpacked somewhere else.
 	if pathWithin(absRoot, absTarget) {
-		return true, nil
+		if filepath.IsAbs(target) {
+			return true, nil
+		}
+		if rel, err := filepath.Rel(absRoot, filepath.Dir(absPath)); err == nil && filepath.IsLocal(filepath.Join(rel, target)) {
+			return true, nil
+		}
 	}
 
 	// The link target is outside of root. Check if it is allowed.
